@@ -4,12 +4,12 @@ CURRENT source – conditions and statements as normalised source texts (`ast.un
 Generated (`lean/PsVerif/Generated/Lifecycle.lean`):
 
     def updModesProg : LTree := …
-    theorem life_updModes_is_spec : updModesProg = LTree.updModesSpec := by decide
+    theorem life_updModes_is_spec : updModesProg = LTree.updModesSpec := by rfl
     theorem life_updModes_denotes (st a) : updModesProg.eval st a = some (st.updateModes a.v a.x a.oracle)
 
 i.e. the method as written IS the three-branch decision of the Lean machine (`Lemmas/LifeDenote.lean`: the specification tree evaluates to
 `Sspor.updateModes` for every state and argument).  An early return, a memo, a reordered assignment, another guard: the tree differs
-and `decide` fails.  What the texts mean is fixed by hand in `LTree.condSem` / `actSem` (trusted, short); `self.fit` is the machine's
+and the equation no longer holds by `rfl`.  What the texts mean is fixed by hand in `LTree.condSem` / `actSem` (trusted, short); `self.fit` is the machine's
 `Sspor.fit`, tied to the real method by the history correspondence of C14 / C15 / C01.
 """
 from __future__ import annotations
@@ -48,6 +48,8 @@ def block(stmts):
         return f"(.act {lean_str(ast.unparse(s))} {block(rest)})"
     if isinstance(s, ast.Pass):
         return block(rest)
+    if isinstance(s, ast.With):
+        return f"(.act {lean_str(ast.unparse(s))} {block(rest)})"      # opaque: the whole block as one statement text
     raise Untranslatable(f"statement {type(s).__name__} at line {s.lineno}")
 
 
@@ -68,14 +70,56 @@ def analyse(repo):
             body = body[1:]
         prog = block(list(body))
         site["lean"] = (f"def updModesProg : LTree :=\n  {prog}\n"
-                        "theorem life_updModes_is_spec : updModesProg = LTree.updModesSpec := by decide\n"
+                        "theorem life_updModes_is_spec : updModesProg = LTree.updModesSpec := by rfl\n"
                         "theorem life_updModes_denotes (st : Sspor) (a : UpdArgs) :\n"
                         "    updModesProg.eval st a = some (st.updateModes a.v a.x a.oracle) := by\n"
                         "  rw [life_updModes_is_spec]; exact updModesSpec_denotes st a\n")
         site["found"] = True
     except Untranslatable as e:
         site["why"] = str(e)[:400]
-    return [site]
+    sites = [site]
+    # ---- _validate_n_sensors, and the part of fit in front of the optimizer call
+    v = {"site": "validate", "function": "pysensors/reconstruction/_sspor.py::SSPOR._validate_n_sensors", "found": False,
+         "theorems": ["life_validate_is_spec", "life_validate_denotes"]}
+    h = {"site": "fitHead", "function": "pysensors/reconstruction/_sspor.py::SSPOR.fit (up to the optimizer call)", "found": False,
+         "theorems": ["life_fitHead_is_spec"]}
+    try:
+        tree = ast.parse(open(os.path.join(str(repo), "pysensors", "reconstruction", "_sspor.py")).read())
+        cls = next((n for n in tree.body if isinstance(n, ast.ClassDef) and n.name == "SSPOR"), None)
+        fns = {n.name: n for n in (cls.body if cls else []) if isinstance(n, ast.FunctionDef)}
+
+        def body_of(fn):
+            b = fn.body
+            if b and isinstance(b[0], ast.Expr) and isinstance(b[0].value, ast.Constant) and isinstance(b[0].value.value, str):
+                b = b[1:]
+            return list(b)
+        try:
+            fn = fns.get("_validate_n_sensors")
+            if fn is None or [a.arg for a in fn.args.args] != ["self"] or fn.decorator_list:
+                raise Untranslatable("SSPOR._validate_n_sensors(self) not found")
+            v["lean"] = (f"def validateProg : LTree :=\n  {block(body_of(fn))}\n"
+                         "theorem life_validate_is_spec : validateProg = LTree.validateSpec := by rfl\n"
+                         "theorem life_validate_denotes (st : Sspor) (a : UpdArgs) : validateProg.eval st a = some st.validateN := by\n"
+                         "  rw [life_validate_is_spec]; exact validateSpec_denotes st a\n")
+            v["found"] = True
+        except Untranslatable as e:
+            v["why"] = str(e)[:400]
+        try:
+            fn = fns.get("fit")
+            if fn is None or fn.decorator_list:
+                raise Untranslatable("SSPOR.fit not found")
+            stmts = body_of(fn)
+            cut = next((i for i, s_ in enumerate(stmts) if "self.optimizer.fit(" in ast.unparse(s_)), None)
+            if cut is None:
+                raise Untranslatable("no statement calling self.optimizer.fit in SSPOR.fit")
+            h["lean"] = (f"def fitHeadProg : LTree :=\n  {block(stmts[:cut])}\n"
+                         "theorem life_fitHead_is_spec : fitHeadProg = LTree.fitHeadSpec := by rfl\n")
+            h["found"] = True
+        except Untranslatable as e:
+            h["why"] = str(e)[:400]
+    except (OSError, SyntaxError) as e:
+        v["why"] = h["why"] = str(e)[:200]
+    return sites + [v, h]
 
 
 def emit(sites, out_path):
